@@ -42,7 +42,10 @@
 (*   Drop            the controller cancels the job of a prepared duty: it is never proposed    *)
 (*   GraffitiCall    graffitiProvider.Graffiti                (only if a provider is configured)*)
 (*   NodeClientCall  proposalProvider.(NodeClientProvider).NodeClient   (graffiti has {{CLIENT}})*)
-(*   AuctionCall     blockAuctioneer.AuctionBlock           (only if an auctioneer is configured)*)
+(*   AuctionCall     blockAuctioneer.AuctionBlock RETURNS   (only if an auctioneer is configured)*)
+(*   AuctionStart    (cfg.strategy # "opaque") the block relay service behind the auctioneer    *)
+(*                   interface looks the proposer's account up: AccountByPublicKey              *)
+(*   BidCall         (cfg.strategy # "opaque") the builder-bid strategy asks relay r for a bid  *)
 (*   ProposalCall    proposalProvider.Proposal                                                  *)
 (*   SignCall        beaconBlockSigner.SignBeaconBlockProposal                                  *)
 (*   UnblindCall     relay r: UnblindProposal (one goroutine per relay, up to three attempts)   *)
@@ -56,6 +59,27 @@
 (* supposed to pass; TLC checks that this design satisfies the invariants, which are property   *)
 (* C05 sentence by sentence.  The trace specification instantiates the same actions with the    *)
 (* arguments the real code passed, so a deviation shows as a false invariant.                   *)
+(*                                                                                              *)
+(* THE AUCTION AS A COMPONENT.  The property says "failure to obtain ... relay bids degrades to  *)
+(* ... a locally built block instead of skipping the proposal", so its boundary is not the       *)
+(* proposer's BlockAuctioneer interface but the relays.  main.go puts between the two            *)
+(*   services/blockrelay/standard.AuctionBlock   (account lookup, proposer configuration, cache)  *)
+(*   strategies/builderbid/{best,deadline}       (one request goroutine per configured relay,     *)
+(*                                                soft/hard time-out resp. deadline)              *)
+(*   util.FetchBuilderClient                     (one client per relay address)                   *)
+(* cfg.strategy names what stands behind the interface: "opaque" (an oracle: AuctionCall is one   *)
+(* atomic step with any outcome - the earlier model and the fake-based binding), or the SIBLING    *)
+(* implementations "best" / "deadline" of the builder-bid operation behind the real block relay.  *)
+(* For those the auction has state of its own (`auction`: acct, asked, bids): AuctionStart, then  *)
+(* one BidCall per request a relay receives (the relay bids / has no bid (204) / fails / ACCEPTS   *)
+(* THE REQUEST AND STAYS SILENT past the strategy's time-out), then AuctionCall = what comes back  *)
+(* to the proposer: an error, results (AllProviders = the configured relays cfg.conf, Providers a  *)
+(* subset of those that bid; possibly empty) - or, a breach of the Go contract, NEITHER results    *)
+(* NOR an error ("nilnil").  The design never produces nilnil; whatever comes back, every         *)
+(* invariant below holds for each value of cfg.strategy, in particular DegradesNotSkips and       *)
+(* CompletesDuty: the proposal is requested, and a locally built block is signed and submitted.   *)
+(* Auction_Proposer.tla is the control: a strategy that answers nilnil when its time-out passes    *)
+(* with a silent relay and no bid, and a caller that dereferences it, must be rejected.            *)
 (*                                                                                              *)
 (* Abstractions: a proposal is [version, blinded, slot, id]; its roots are Root(id, kind) (the   *)
 (* driver decodes the 32-byte roots the code passed with the library's accessors applied to the *)
@@ -87,14 +111,19 @@ VARIABLES k,          \* number of duty objects (handles) made so far (1..NDutie
           parked,     \* [1..NDuties -> pipeline of the handle | Nil]: the other handles
           past,       \* what went wrong in the calls that have returned on this instance (set of FailureTags)
           duty,       \* [slot, v] of handle cur
-          cfg,        \* [graffiti, nodeclient, auctioneer, unblindAll : BOOLEAN]  (what the service was built
-                      \*  with; nodeclient: the proposal provider implements NodeClientProvider)
+          cfg,        \* [graffiti, nodeclient, auctioneer, unblindAll : BOOLEAN, strategy, conf]  (what the
+                      \*  service was built with; nodeclient: the proposal provider implements NodeClientProvider;
+                      \*  strategy: what stands behind the auctioneer interface - "opaque" | "best" | "deadline";
+                      \*  conf: the relays of the execution configuration, for strategy # "opaque")
           pc,
           acct,       \* NoAcct or [epoch, idxs, out]
           randao,     \* NoRandao or [account, slot, out, token]
           graffiti,   \* "none" | "static" (text) | "template" (text with {{CLIENT}}) | "err" (provider failed)
           nodeclient, \* "none" | "ok" | "err": the node client lookup for the template
-          auction,    \* [kind |-> "none" | "err" | "results", all, providers]
+          auction,    \* [kind |-> "none" | "bidding" | "err" | "results" | "nilnil", all, providers,
+                      \*  acct |-> "none" | "ok" | "err"  (the block relay's account lookup),
+                      \*  asked |-> [Relays -> Nat]  (requests relay r has received in this auction),
+                      \*  bids |-> [Relays -> "none" | "bid" | "nobid" | "err" | "silent"]]
           preq,       \* NoPreq or [slot, zerograffiti, reveal]
           prop,       \* NoProp or [version, blinded, slot, id]
           sreq,       \* NoSreq or [account, slot, v, parent, state, body]
@@ -118,10 +147,12 @@ Epoch(s) == s \div SlotsPerEpoch
 \* values for Dslots (a configuration file cannot write a negative number: Dslots <- AllDslots)
 AllDslots == {-1, 0, 1}
 FwdDslots == {0, 1}
+JustDslot == {0}
 
 NoAcct   == [epoch |-> -1, idxs |-> <<>>, out |-> "none"]
 NoRandao == [account |-> -1, slot |-> -1, out |-> "none", token |-> 0]
-NoAuction == [kind |-> "none", all |-> {}, providers |-> {}]
+NoAuction == [kind |-> "none", all |-> {}, providers |-> {}, acct |-> "none",
+              asked |-> [r \in Relays |-> 0], bids |-> [r \in Relays |-> "none"]]
 NoPreq   == [slot |-> -1, zerograffiti |-> FALSE, reveal |-> 0]
 NoProp   == [version |-> "none", blinded |-> FALSE, slot |-> -1, id |-> 0]
 NoRoot   == [id |-> 0, kind |-> "none"]
@@ -160,15 +191,31 @@ AfterValidate == IF cfg.graffiti THEN "graffiti" ELSE AfterGraffiti
 \* known already; the property does not say - so the step after it is also possible straight away.
 At(step) == pc = step \/ (pc = "nodeclient" /\ AfterGraffiti = step)
 
-ProposePcs == {"invalid", "graffiti", "nodeclient", "auction", "proposal", "confirm", "signed", "submitted"}
+ProposePcs == {"invalid", "graffiti", "nodeclient", "auction", "bidding", "proposal", "confirm", "signed", "submitted"}
 
-Cfgs == {c \in [graffiti : BOOLEAN, nodeclient : BOOLEAN, auctioneer : BOOLEAN, unblindAll : BOOLEAN] :
-            (c.unblindAll => c.auctioneer) /\ (c.nodeclient => c.graffiti)}
+\* the sibling implementations of the builder-bid operation (strategies/builderbid/*), behind the real block relay
+Strategies == {"best", "deadline"}
+\* what a relay does with a request for a bid: bids / has none (204) / fails / accepts the request and stays silent
+BidOuts == {"bid", "nobid", "err", "silent"}
+\* (value for BidOuts in a control configuration: relays that always answer)
+AnsweringBidOuts == {"bid", "nobid", "err"}
+\* requests a relay receives in one auction: best asks once, deadline asks again until the deadline (bound of the model)
+MaxAsk(strategy) == IF strategy = "deadline" THEN 2 ELSE 1
+\* bound of the model: what the relays do in the auctions of the duties after the first
+LaterBidOuts == {"bid", "silent"}
 
-\* values for InitCfgs (InitCfgs <- AllCfgs / BuilderCfgs)
-AllCfgs == Cfgs
+Cfgs == {c \in [graffiti : BOOLEAN, nodeclient : BOOLEAN, auctioneer : BOOLEAN, unblindAll : BOOLEAN,
+                strategy : {"opaque"} \cup Strategies, conf : SUBSET Relays] :
+            /\ (c.unblindAll => c.auctioneer) /\ (c.nodeclient => c.graffiti)
+            /\ (c.strategy # "opaque" => c.auctioneer) /\ (c.strategy = "opaque" => c.conf = {})}
+
+\* values for InitCfgs (InitCfgs <- AllCfgs / BuilderCfgs / WiredCfgs)
+\* the auctioneer as an oracle (all nine service configurations)
+AllCfgs == {c \in Cfgs : c.strategy = "opaque"}
 \* graffiti provider and auctioneer configured (every step of the pipeline exists)
-BuilderCfgs == {c \in Cfgs : c.graffiti /\ c.auctioneer /\ ~c.unblindAll /\ ~c.nodeclient}
+BuilderCfgs == {c \in AllCfgs : c.graffiti /\ c.auctioneer /\ ~c.unblindAll /\ ~c.nodeclient}
+\* the auction as a component: each sibling strategy behind the block relay, every set of configured relays
+WiredCfgs == {c \in Cfgs : c.strategy # "opaque" /\ c.graffiti /\ ~c.nodeclient}
 
 CleanPipeline ==
     /\ pc = "start"
@@ -288,9 +335,30 @@ NodeClientCall(out) ==
     /\ UNCHANGED <<hvars, acct, randao, graffiti, auction, preq, prop, sreq, sig, calls, sent, fulls,
                    cancelled, submitted, subout>>
 
-AuctionCall(out, all, providers) ==
+\* the block relay service (behind the auctioneer interface) looks up the account of the proposer's key
+AuctionStart(out) ==
     /\ At("auction")
-    /\ auction' = [kind |-> out, all |-> all, providers |-> providers]
+    /\ cfg.strategy # "opaque"
+    /\ auction' = [NoAuction EXCEPT !.kind = "bidding", !.acct = out]
+    /\ pc' = "bidding"
+    /\ UNCHANGED <<hvars, acct, randao, graffiti, nodeclient, preq, prop, sreq, sig, calls, sent, fulls,
+                   cancelled, submitted, subout>>
+
+\* relay r receives a request for a bid (the strategy's goroutine for r).  What is remembered per relay is
+\* whether it has bid in this auction.
+BidCall(r, out) ==
+    /\ pc = "bidding"
+    /\ auction' = [auction EXCEPT !.asked[r] = @ + 1,
+                                  !.bids[r] = IF @ = "bid" THEN "bid" ELSE out]
+    /\ UNCHANGED <<hvars, pc, acct, randao, graffiti, nodeclient, preq, prop, sreq, sig, calls, sent, fulls,
+                   cancelled, submitted, subout>>
+
+\* AuctionBlock returns to the proposer: out = "err" (an error), "results" (AllProviders = all, Providers =
+\* providers), or "nilnil" (neither results nor an error: a breach of the contract, recorded as such)
+AuctionCall(out, all, providers) ==
+    /\ \/ At("auction") /\ cfg.strategy = "opaque"
+       \/ pc = "bidding"
+    /\ auction' = [auction EXCEPT !.kind = out, !.all = all, !.providers = providers]
     /\ pc' = "proposal"
     /\ UNCHANGED <<hvars, acct, randao, graffiti, nodeclient, preq, prop, sreq, sig, calls, sent, fulls,
                    cancelled, submitted, subout>>
@@ -350,7 +418,7 @@ Failures ==
         \/ t = "prepare"    /\ (acct.out \in {"err", "empty"} \/ randao.out = "err")
         \/ t = "graffiti"   /\ graffiti = "err"
         \/ t = "nodeclient" /\ nodeclient = "err"
-        \/ t = "auction"    /\ auction.kind = "err"
+        \/ t = "auction"    /\ auction.kind \in {"err", "nilnil"}
         \/ t = "fetch"      /\ preq # NoPreq /\ prop = NoProp
         \/ t = "wrongslot"  /\ prop # NoProp /\ prop.slot # duty.slot
         \/ t = "sign"       /\ sreq # NoSreq /\ sig = 0
@@ -438,15 +506,36 @@ SignStep(account) ==
          SignCall(account, duty.slot, duty.v, Root(prop.id, "parent"), Root(prop.id, "state"),
                   Root(prop.id, "body"), out, 1)
 
+\* The auction as a component (cfg.strategy # "opaque"): services/blockrelay/standard.AuctionBlock and the
+\* builder-bid strategy behind it.  Relays that bid
+Bidders == {r \in cfg.conf : auction.bids[r] = "bid"}
+\* the account lookup failed: an error; no relays configured: empty results without asking anybody;
+\* otherwise every configured relay is asked (best: once; deadline: again until the deadline) and the
+\* strategy returns - when all have answered or when its time-out / deadline passes, i.e. at ANY time as far
+\* as the model is concerned - results with AllProviders = the configured relays and Providers = relays that
+\* bid (which of them, and whether any: timing and bid values, left open).  Never an error, never nilnil.
+AuctionReturns ==
+    \/ auction.acct = "err" /\ AuctionCall("err", {}, {})
+    \/ auction.acct = "ok" /\ \E providers \in SUBSET Bidders : AuctionCall("results", cfg.conf, providers)
+
+AuctionSteps ==
+    \/ pc = "auction" /\ \E out \in Bound({"ok", "err"}, {"ok"}) : AuctionStart(out)
+    \/ /\ pc = "bidding" /\ auction.acct = "ok"
+       /\ \E r \in cfg.conf : \E out \in Bound(BidOuts, LaterBidOuts) :
+            /\ auction.asked[r] < MaxAsk(cfg.strategy)
+            /\ BidCall(r, out)
+    \/ pc = "bidding" /\ AuctionReturns
+
 OtherSteps ==
     \/ ProposeCall
     \/ Drop
     \/ \E out \in {"static", "template", "err"} : GraffitiCall(out)
     \/ \E out \in {"ok", "err"} : NodeClientCall(out)
-    \/ pc = "auction" /\ AuctionCall("err", {}, {})
-    \/ /\ pc = "auction"
+    \/ pc = "auction" /\ cfg.strategy = "opaque" /\ AuctionCall("err", {}, {})
+    \/ /\ pc = "auction" /\ cfg.strategy = "opaque"
        /\ \E all \in Bound(AllChoices, LaterAllChoices) : \E providers \in SUBSET all :
             AuctionCall("results", all, providers)
+    \/ AuctionSteps
     \/ /\ pc = "proposal"
        /\ \/ ProposalCall(duty.slot, graffiti \notin {"static", "template"}, randao.token, "err", NoProp)
           \/ \E p \in Proposals :
@@ -486,7 +575,9 @@ TypeOK ==
     /\ pc \in PreparePcs \cup IdlePcs \cup ProposePcs \cup OverPcs
     /\ graffiti \in {"none", "static", "template", "err"}
     /\ nodeclient \in {"none", "ok", "err"}
-    /\ auction.kind \in {"none", "err", "results"}
+    /\ auction.kind \in {"none", "bidding", "err", "results", "nilnil"}
+    /\ auction.acct \in {"none", "ok", "err"}
+    /\ \A r \in Relays : auction.bids[r] \in {"none"} \cup BidOuts
     /\ cancelled \in BOOLEAN
     /\ \A r \in Relays : calls[r] \in 0..MaxCalls
 
@@ -527,8 +618,13 @@ NothingWithoutUnblind ==
 \*  of skipping the proposal": the proposal is still requested (without graffiti), seen when Propose returns.
 \*  A failed node client lookup is a failure inside the graffiti acquisition: same rule (what graffiti the
 \*  request then carries - the template unaltered, or none - is not judged).
+\*  "Failure to obtain relay bids": the auction came back with an error, with results that name no relay with a
+\*  bid (nobody bid, bids were refused, relays failed or stayed silent until the strategy gave up) or - contract
+\*  breach - with neither results nor an error.  Whatever stands behind the auctioneer interface (cfg.strategy).
+NoBidsObtained == auction.kind \in {"err", "nilnil"} \/ (auction.kind = "results" /\ auction.providers = {})
+
 DegradesNotSkips ==
-    (pc = "done" /\ (graffiti = "err" \/ nodeclient = "err" \/ auction.kind = "err")) =>
+    (pc = "done" /\ (graffiti = "err" \/ nodeclient = "err" \/ NoBidsObtained)) =>
         /\ preq # NoPreq
         /\ graffiti = "err" => preq.zerograffiti
 
